@@ -16,7 +16,7 @@ RULE = (
     "A batch of meters (daily legacy / legacy developer splits / current, billing, hourly with an explicit seed under three profiles, "
     "CalTRACK hourly on a 120-day baseline) and generated schedules: a permutation of the batch, a split over 1-16 subprocesses, "
     "unrelated warm-up actions before and between fits (another fit, re-seeding and consuming numpy's global RNG, constructing "
-    "settings, a validation failure), repeated predictions, every model serialised again at the end of its process, and a per-subprocess environment (PYTHONHASHSEED in {0, 1, random}, "
+    "settings, a validation failure), repeated predictions, fit() called again on the model object of an earlier meter with the same profile, every model serialised again at the end of its process, and a per-subprocess environment (PYTHONHASHSEED in {0, 1, random}, "
     "OMP/MKL/OPENBLAS_NUM_THREADS in {unset, 1, 4}). Oracle: the sha-256 of to_json() and of the raw bytes of predict(fixed "
     "reporting set) of every execution equals the digests obtained for that meter in a fresh single subprocess that does nothing "
     "else. Non-trivial: a comparison made in a different process, or after at least one intervening fit of another meter, than its "
@@ -52,6 +52,11 @@ def batch(tier):
         "hourly-seed0-10": meter("hourly", "hourly_seed0", 10, ghi=False),
         # several supplemental columns: their order must not follow the per-process string hash
         "hourly-suppl-11": meter("hourly", "hourly_supplemental", 11, ghi=False),
+        # gaps next to the ends of the series (filled from lagged neighbours that do not exist)
+        "hourly-edgegaps-12": meter("hourly", "hourly_default", 12, ghi=False, edge_gaps=True),
+        # same profiles as meters 4 and 1: one model object may be re-used for them (fit called again on the same object)
+        "hourly-13": meter("hourly", "hourly_default", 13, ghi=False, weekend_shift=0.3),
+        "daily-legacy-14": meter("daily", "legacy", 14, noise=0.3),
     }
     if tier == "thorough":
         ms["hourly-supplcat-25"] = meter("hourly", "hourly_supplemental_cat", 25, ghi=False)
@@ -113,11 +118,11 @@ def schedules(draw, names):
             for _ in range(draw(st.integers(0, 2))):
                 j = draw(st.sampled_from(["rng", "settings", "validation_error", "other_fit"]))
                 acts.append(["junk", j, draw(st.integers(0, 100))])
-            acts.append(["fit", n])
+            acts.append(["fit", n, draw(st.booleans())])  # True: re-use the model object of an earlier meter with the same profile
             if draw(st.booleans()):
                 acts.append(["repredict", n])
         if len(ch) > 1 and draw(st.booleans()):
-            acts.append(["fit", ch[0]])  # the same meter again in the warm process
+            acts.append(["fit", ch[0], draw(st.booleans())])  # the same meter again in the warm process
         procs.append({"actions": acts, "env": {"hashseed": draw(st.sampled_from(["0", "1", "random", "12345"])),
                                                "threads": draw(st.sampled_from(["unset", "1", "4"]))}})
     return {"kind": "schedule", "procs": procs}
@@ -130,7 +135,7 @@ def make_judge(meters):
         with cf.ThreadPoolExecutor(max_workers=8) as ex:
             futs = []
             for p in c["procs"]:
-                acts = [([a[0], meters[a[1]], a[1]] if a[0] == "fit" else a) for a in p["actions"]]
+                acts = [([a[0], meters[a[1]], a[1], bool(a[2]) if len(a) > 2 else False] if a[0] == "fit" else a) for a in p["actions"]]
                 futs.append(ex.submit(run_worker, acts, p["env"]))
             results = [f.result() for f in futs]
         ncmp = 0
